@@ -460,6 +460,18 @@ class LinkSameWithUnits(LinkTwoWay):
     def backwards(self, values):
         return self._converter.to_unit(self._cid2.parent, self._cid2, values, self.units1)
 
+    # The conversion functions are methods of the link itself, so we don't
+    # save them, they are set up again when the link is created.
+
+    def __gluestate__(self, context):
+        return dict(cid1=context.id(self._cid1),
+                    cid2=context.id(self._cid2))
+
+    @classmethod
+    def __setgluestate__(cls, rec, context):
+        return cls(context.object(rec['cid1']),
+                   context.object(rec['cid2']))
+
 
 class LinkAligned(LinkCollection):
     """
